@@ -1082,4 +1082,60 @@ theorem basket_hooks_wired :
     Sekai.Gen.App.hooks.contains ("multiStakingKeeper", "multistakingtypes.NewMultiStakingHooks(app.BasketKeeper.Hooks())") = true := by
   decide +kernel
 
+/-! ## the layer2 mint / burn messages aimed at a basket denomination -/
+
+/-- `MsgMintIssueTx` never creates basket tokens: refused for every sender and amount -/
+theorem l2_issue_refused (s : St) (a : Acct) (c : Coin) : l2Issue s a c = none := rfl
+
+/-- the supply is at most the recorded amount (the half of (a) that keeps the basket backed) -/
+def SupplyLe (s : St) : Prop :=
+  ∀ id b, getBasket s.baskets id = some b → s.bank.supplyOf b.denom ≤ b.amount
+
+theorem supplyLe_of_eq {s : St} (h : SupplyEq s) : SupplyLe s := fun id b hb => by rw [h id b hb]; exact Int.le_refl _
+
+/-- a layer2 burn by a user touches no basket record, takes nothing from the module account, and can only LOWER supplies:
+the supply stays at most the recorded amount (so it stays covered by the reserves wherever the amount is) -/
+theorem l2_burn_keeps_backing (s s' : St) (i : Nat) (c : Coin) (h : l2Burn s (.user i) c = some s')
+    (hle : SupplyLe s) (hm : ModuleHolds s) : s'.baskets = s.baskets ∧ SupplyLe s' ∧ ModuleHolds s' := by
+  unfold l2Burn at h
+  by_cases hp : 0 < c.amount
+  · rw [if_pos hp] at h
+    cases hs : s.bank.sub1 (.user i) c with
+    | none => rw [hs] at h; cases h
+    | some b1 =>
+      rw [hs] at h
+      simp only [Option.some.injEq] at h
+      subst h
+      obtain ⟨hsup, _, hbal⟩ := sub1_spec _ _ _ _ hs
+      refine ⟨rfl, ?_, ?_⟩
+      · intro id b hb
+        show AMap.get (b1.supply.set c.denom _) b.denom ≤ _
+        rw [get_set]
+        have h0 := hle id b hb
+        have e : b1.supplyOf b.denom = s.bank.supplyOf b.denom := supplyOf_eq_of_supply_eq _ _ hsup _
+        by_cases hd : b.denom = c.denom
+        · rw [if_pos hd]
+          have e' : b1.supplyOf c.denom = s.bank.supplyOf b.denom := by rw [← hd]; exact e
+          rw [e']; omega
+        · rw [if_neg hd]
+          show b1.supplyOf b.denom ≤ _
+          rw [e]; exact h0
+      · intro d
+        have := hm d
+        show _ ≤ Bank.balOf _ .module d
+        have hb : b1.balOf .module d = s.bank.balOf .module d := by
+          rw [hbal]; simp
+        show owed s.baskets d ≤ Bank.balOf { b1 with supply := _ } .module d
+        have : Bank.balOf { b1 with supply := b1.supply.set c.denom (b1.supplyOf c.denom - c.amount) } .module d = b1.balOf .module d := rfl
+        rw [this, hb]; exact hm d
+  · rw [if_neg hp] at h; cases h
+
+/-- … but clause (a) itself - supply EQUAL to the recorded amount - is lost: on the witness state (supply 2000 = amount
+2000) a holder burns 400 basket tokens through layer2; the supply is 1600, the record still says 2000
+(finding `C11/l2-burn/supply-below-recorded-amount`) -/
+theorem l2_burn_supply_eq_counterexample :
+    wS.bank.supplyOf "b1/usd" = 2000 ∧ (getBasket wS.baskets 1).map (·.amount) = some 2000 ∧
+    (l2Burn wS (.user 1) ⟨"b1/usd", 400⟩).map
+      (fun s' => (s'.bank.supplyOf "b1/usd", (getBasket s'.baskets 1).map (·.amount))) = some (1600, some 2000) := by decide
+
 end Sekai.Props.C11
